@@ -17,6 +17,16 @@ from typing import Dict, List, Optional
 from engines import absdom, pyfacts as pf
 from engines.common import AnalysisError, Ctx
 
+META = dict(
+    category='proof',
+    text='Exhaustive truth table of the extracted retry handlers over all classifier valuations x failure indices, and exhaustive interval '
+         'evaluation of the back-off function for every try count; every row/try count is an obligation and all are discharged by our own '
+         'evaluator over the syntax tree. This is the right level because the retry decision depends only on four predicates and a counter.',
+    note='Trusted: CPython ast; the evaluator in engines/absdom.py; randrange/asyncio.sleep semantics. Not decided: which exception classes are transient.',
+    technique='static analysis: predicate-abstraction truth table + interval abstract interpretation over the AST',
+    design_ref='DESIGN.md §3 C21',
+)
+
 F = 'hail/python/hailtop/utils/utils.py'
 LIMITED_RETRIES = 5  # from the statement: "give up after at most five retries on limited-retry errors"
 
